@@ -19,7 +19,7 @@ RULE = ('Hypothesis RuleBasedStateMachine over the ASan+UBSan agent with 1-3 pre
         'descriptor after closing it, closes twice, or uses a closed descriptor as a directory handle; distinct by history.')
 ASSUME = ['descriptor numbers are issued by wasi.c; the model only requires freshness, not a particular numbering']
 
-NONTRIVIAL = ('use_after_close', 'double_close', 'closed_as_directory', 'never_issued')
+NONTRIVIAL = ('use_after_close', 'double_close', 'closed_as_directory', 'never_issued', 'listed_before_close')
 DIR_CALLS = ('path_open', 'path_filestat_get', 'path_create_directory', 'path_remove_directory', 'path_unlink_file',
              'path_rename_old', 'path_rename_new', 'path_symlink', 'path_readlink', 'fd_readdir')
 
@@ -70,6 +70,17 @@ class C13Machine(RuleBasedStateMachine):
     @rule(fd=live, bufs=st.lists(st.binary(max_size=16), max_size=3))
     def write_live(self, fd, bufs):
         self.ex.fd_write(fd, bufs)
+
+    @rule(fd=live, bufsize=st.sampled_from([64, 256, 4096]))
+    def list_live(self, fd, bufsize):
+        # listing a directory descriptor gives it host-side state (an open directory stream) that fd_close has to release too
+        if self.ex.fds[fd]['kind'] == 'dir':
+            self.ex.flags.add('listed_before_close')
+            self.ex.readdir(fd, bufsize, None, False)
+
+    @rule(fd=live, lens=st.lists(st.sampled_from([1, 8]), min_size=1, max_size=2))
+    def read_live(self, fd, lens):
+        self.ex.fd_read(fd, lens)
 
     @rule(fd=live, unstable=st.booleans())
     def stat_live(self, fd, unstable):
